@@ -1275,8 +1275,27 @@ func r13WindingOrder(c *core.Ctx) {
 		}
 	}
 	c.Check(R, "reversal-covers-every-ring/"+rev.Name, rev.Decl.Pos(), okRev, "returns early iff !config.ReverseWindingOrder, otherwise reverses every ring of every polygon", "reverseWindingOrderIfConfigured does not reverse exactly every ring when (and only when) configured")
-	// points and lines are appended after the reversal loop and are not reversed (1-2 vertices): informational
-	c.Floor(R, 2)
+	// the orientation predicate itself: decided by the trusted library primitive on the whole ring
+	if w := c.Anchor(R, "snap.windingOrderIsCorrect"); w != nil {
+		winfo := w.Pkg.TypesInfo
+		calls := core.CallsIn(winfo, w.Decl, "github.com/go-spatial/geom/winding.Order.OfPoints")
+		ring := w.Obj.Type().(*types.Signature).Params().At(0)
+		okPrim := len(calls) == 1 && len(calls[0].Args) == 1 && calls[0].Ellipsis.IsValid() && core.ObjOf(winfo, calls[0].Args[0]) == ring
+		if okPrim {
+			c.OK(R, "orientation-by-trusted-primitive/"+w.Name, w.Decl.Pos(), "orientation of a ring is winding.Order{}.OfPoints(ring...) of go-spatial (translates to the first vertex before summing), the trusted base of the orientation clauses")
+		} else {
+			c.Unknown(R, "orientation-by-trusted-primitive/"+w.Name, w.Decl.Pos(), "the orientation of a ring is no longer decided by go-spatial's winding.Order.OfPoints on the whole ring. That primitive is the trusted base of the orientation clauses (a shoelace sum over absolute coordinates, for instance, cancels to noise for small rings far from the origin): the rule cannot vouch for a replacement")
+		}
+		// and it is the only orientation test used by normalisation and by the split classification
+		users := 0
+		for _, fn := range []string{"snap.ensureCorrectWindingOrder", "snap.splitRing"} {
+			if f := c.P.Funcs[fn]; f != nil {
+				users += len(core.CallsIn(f.Pkg.TypesInfo, f.Decl, "snap.windingOrderIsCorrect"))
+			}
+		}
+		c.Check(R, "orientation-predicate-shared/snap", w.Decl.Pos(), users >= 3, fmt.Sprintf("%d uses in ensureCorrectWindingOrder and splitRing", users), "normalisation and split classification no longer share one orientation predicate")
+	}
+	c.Floor(R, 3)
 }
 
 // R14: each option is read where it takes effect.
